@@ -359,6 +359,9 @@ class ExecutionState:
                 )
             ):
                 return True
+            if parent_id in self._completed_contexts:
+                # the context finished in this invocation (possibly early): execution is past its children
+                return True
             parent_id = parent.parent_id
         return False
 
@@ -503,6 +506,15 @@ class ExecutionState:
                         error_msg,
                         operation_id=operation_update.operation_id,
                     )
+
+            if (
+                operation_update.operation_type == OperationType.CONTEXT
+                and operation_update.action
+                in {OperationAction.SUCCEED, OperationAction.FAIL}
+            ):
+                # Children of this context that completed in an earlier invocation may not have been
+                # visited (e.g. the context completed early): they no longer keep the execution in REPLAY
+                self.track_replay(operation_update.operation_id)
 
         # Check if background checkpointing has failed
         if self._checkpointing_failed.is_set():
